@@ -1,5 +1,6 @@
 import LexgenModel.Proofs.Static
 import LexgenModel.Proofs.Totality
+import LexgenModel.Proofs.StaticIff
 /-!
 # C17 — Ill-formed definitions are rejected at expansion time (model of `lexer()`'s static checks)
 
@@ -75,5 +76,13 @@ theorem C17_only_user_errors (items : LexerDef) (hp : ItemsPiecesOK items) (e : 
   | mixedRules => exact Or.inr (Or.inr (Or.inr (Or.inr (Or.inr (Or.inr (Or.inr (Or.inl rfl)))))))
   | firstNotInit => exact Or.inr (Or.inr (Or.inr (Or.inr (Or.inr (Or.inr (Or.inr (Or.inr rfl)))))))
   | internal w => simp [CompileError.isInternal] at hi
+
+/-- **Exactly the statically well-formed definitions are accepted.** The model of the macro succeeds on a definition iff it satisfies the declarative
+predicate `StaticOK` (Spec/StaticOK.lean): rules at top level and rule sets are not mixed; `type Error` at most once; rule-set names distinct and the first is
+`Init`; a `let` repeats no earlier `let` in scope; every rule and right context elaborates in the bindings in scope (every reached variable bound, no cycle,
+built-ins known, operands of `#` are class expressions). So every violation is rejected (C17) and nothing else is (C12). -/
+theorem C17_accepts_exactly_static_ok (items : LexerDef) (hp : ItemsPiecesOK items) :
+    (∃ c, compileLexer items = .ok c) ↔ StaticOK items :=
+  compileLexer_ok_iff items hp
 
 end Lexgen
